@@ -25,6 +25,7 @@ Oracle (from the property statement):
   memoisation is observable.
 """
 import itertools
+import traceback
 
 import pyglove as pg
 from pyvc.bounded import Recorder, rng
@@ -52,11 +53,20 @@ PRE_PARTS = {
   allow_symbolic_assignment=True
   z:T.Any(default=None);r:T.Int()
 ''',
+    # who(): the container an event was delivered to (a clone of a Dict shares
+    # the callback of its origin, so the closure alone cannot tell).
+    'who': '''def who(h,u):
+  for k,f in u.items():
+    t=f.target
+    while t is not None and len(t.sym_path)!=len(f.path)-len(k):t=t.sym_parent
+    if t is not None:return t
+  return h[0]
+''',
     'cbd': '''def cbd(**kw):
-  h=[];d=pg.Dict(onchange_callback=lambda u:LOG.append(('c',h[0],dict(u))),**kw);h.append(d);return d
+  h=[];d=pg.Dict(onchange_callback=lambda u:LOG.append(('c',who(h,u),dict(u))),**kw);h.append(d);return d
 ''',
     'cbl': '''def cbl(v):
-  h=[];l=pg.List(v,onchange_callback=lambda u:LOG.append(('c',h[0],dict(u))));h.append(l);return l
+  h=[];l=pg.List(v,onchange_callback=lambda u:LOG.append(('c',who(h,u),dict(u))));h.append(l);return l
 ''',
 }
 _NS = {'__name__': __name__}
@@ -97,8 +107,10 @@ def _exec(src, **env):
 def preamble(*srcs):
   text = ' '.join(srcs)
   out = PRE_HEAD
+  if 'cbd(' in text or 'cbl(' in text:
+    out += PRE_PARTS['who']
   for name, part in PRE_PARTS.items():
-    if name + '(' in text or name + '.' in text:
+    if name != 'who' and (name + '(' in text or name + '.' in text):
       out += part
   return out
 
@@ -356,6 +368,7 @@ def dict_ops(at, n, r, nvals):
   if keys and not has_spec:
     add('dict.popitem', 'n.popitem()', [((list(n.keys())[-1],), 'DEL')])
     add('dict.clear', 'n.clear()', [((k,), 'DEL') for k in keys])
+  _batch_ops(add, n, r, 'dict')
   ints = _int_leaves(n)
   if ints:
     add('dict.rebind/fn', 'n.rebind(lambda k, v: 77 if isinstance(v, int) '
@@ -403,35 +416,36 @@ def object_ops(at, n, r, nvals):
     b = _vals(r, 1, _field_int_only(n, k2))[0]
     add('object.rebind/kwargs-2', f'n.rebind({k1}={a}, {k2}={b})',
         [((k1,), 'SET'), ((k2,), 'SET')])
-  # Batched rebind reaching different depths below n.
-  deep = []
-  for rel in _descendant_slots(n):
-    if len(rel) >= 2:
-      deep.append(rel)
-  if deep:
-    picks = deep if r is None else r.sample(deep, min(3, len(deep)))
-    picks = picks[:4]
-    pairs, exp = [], []
-    k0 = keys[0]
-    if not any(p[0] == k0 for p in picks):
-      pairs.append(f'{k0!r}: {_vals(r, 1, _field_int_only(n, k0))[0]}')
-      exp.append(((k0,), 'SET'))
-    for rel in picks:
-      if any(rel[:len(q)] == q or q[:len(rel)] == rel
-             for q, _ in exp if q != rel):
-        continue
-      pairs.append(f'{pstr(rel)!r}: {next(_counter)}')
-      exp.append((rel, 'SET'))
-    add('object.rebind/batch-multi-depth',
-        'n.rebind({' + ', '.join(pairs) + '})', exp)
-    add('object.rebind/batch-multi-depth-no-notify-parents',
-        'n.rebind({' + ', '.join(pairs) + '}, notify_parents=False)', exp,
-        notify_parents=False)
+  _batch_ops(add, n, r, 'object')
   ints = _int_leaves(n)
   if ints:
     add('object.rebind/fn', 'n.rebind(lambda k, v: 77 if isinstance(v, int) '
         'and not isinstance(v, bool) else v)', [(p, 'SET') for p in ints])
   return ops
+
+
+def _batch_ops(add, n, r, kind):
+  """Batched rebind reaching several depths below n in one call."""
+  deep = [rel for rel in _descendant_slots(n)]
+  if not any(len(rel) >= 2 for rel in deep):
+    return
+  picks = deep if r is None else r.sample(deep, min(4, len(deep)))
+  if r is None:
+    # Deterministic spread: shallowest, deepest and two in between.
+    deep.sort(key=lambda p: (len(p), str(p)))
+    picks = [deep[0], deep[-1], deep[len(deep) // 2], deep[len(deep) // 3]]
+  pairs, exp = [], []
+  for rel in picks:
+    if any(q == rel for q, _ in exp):
+      continue
+    pairs.append(f'{pstr(rel)!r}: {next(_counter)}')
+    exp.append((rel, 'SET'))
+  if not any(len(rel) >= 2 for rel, _ in exp):
+    return
+  body = '{' + ', '.join(pairs) + '}'
+  add(f'{kind}.rebind/batch-multi-depth', f'n.rebind({body})', exp)
+  add(f'{kind}.rebind/batch-multi-depth-no-notify-parents',
+      f'n.rebind({body}, notify_parents=False)', exp, notify_parents=False)
 
 
 def _descendant_slots(n, rel=()):
@@ -522,6 +536,7 @@ def list_ops(at, n, r, nvals):
     add('list.setitem/slice-step',
         'n[::2] = [' + ', '.join(v() for _ in range((ln + 1) // 2)) + ']',
         [((i,), 'SET') for i in range(0, ln, 2)])
+  _batch_ops(add, n, r, 'list')
   ints = _int_leaves(n)
   if ints:
     add('list.rebind/fn', 'n.rebind(lambda k, v: 77 if isinstance(v, int) '
@@ -530,6 +545,13 @@ def list_ops(at, n, r, nvals):
 
 
 def gen_ops(root, r=None, nvals=3):
+  try:
+    return _gen_ops(root, r, nvals)
+  except Exception:  # pylint: disable=broad-except
+    return []   # tree no longer walkable; the step that broke it was reported
+
+
+def _gen_ops(root, r=None, nvals=3):
   ops = []
   for keys, n in sym_nodes(root):
     if isinstance(n, pg.hyper.OneOf) or (
@@ -571,6 +593,21 @@ def op_src_lines(op, mode):
 
 
 def run_step(rec, tree, root, history, op, mode, tag, check_facts=True):
+  """See _run_step; a tripping harness is reported, never crashes the driver."""
+  try:
+    return _run_step(rec, tree, root, history, op, mode, tag, check_facts)
+  except Exception as e:  # pylint: disable=broad-except
+    hist = [ln for h in history for ln in h]
+    body = '\n'.join([f'root = {TREES[tree]}'] + hist +
+                     op_src_lines(op, mode) +
+                     ['pg.from_json(pg.to_json(root), allow_partial=True)'])
+    rec.case(f"{op['name']}|harness-exception", (tree, tag, op['src'], mode),
+             False, f'{type(e).__name__}: {e} while judging {op["src"]!r}: '
+             + traceback.format_exc()[-300:], SHORT_PRE + body)
+    return False
+
+
+def _run_step(rec, tree, root, history, op, mode, tag, check_facts=True):
   """Executes `op` on root in `mode`; returns False if the history must stop.
 
   mode: 'normal' | 'disabled' | 'nested-enabled' | 'skip'
@@ -911,20 +948,25 @@ def drv_histories(tier, seed):
   rec = Recorder(
       'C09', 'histories of mutations; events + derived facts checked after '
       'every step (all facts queried before each step)',
-      scope='4 trees; quick: 60 seeded random histories of length<=5 per tree '
-      '+ all 2-step histories whose first step is one of 12 sampled ops and '
+      scope='4 trees; quick: 45 seeded random histories of length<=5 per tree '
+      '+ all 2-step histories whose first step is one of 10 sampled ops and '
       'second one of 25 sampled; thorough: 600 random histories of length<=7 '
       '+ first step from 60 sampled x second from 80 sampled')
   r = rng(seed, 'c09-hist')
   ALL_NODES[0] = tier != 'quick'
-  n_rand, max_len = (60, 5) if tier == 'quick' else (600, 7)
-  n_first, n_second = (12, 25) if tier == 'quick' else (60, 80)
-  # Operations whose event/freshness failures are already charged to
-  # single-step cases are given a low weight so that histories stay long.
+  n_rand, max_len = (45, 5) if tier == 'quick' else (600, 7)
+  n_first, n_second = (10, 25) if tier == 'quick' else (60, 80)
+  # A failing step ends its history (stale state would only produce echoes);
+  # operations that already failed in this run are then picked rarely so
+  # that the remaining histories stay long.
+  bad = set()   # op names that already failed in this run
+
   def pick(ops):
-    for _ in range(20):
+    for _ in range(30):
       op = r.choice(ops)
       if op.get('nochange') and r.random() < 0.7:
+        continue
+      if op['name'] in bad and r.random() < 0.9:
         continue
       return op
     return op
@@ -942,6 +984,7 @@ def drv_histories(tier, seed):
         mode = 'normal' if r.random() < 0.9 else 'nested-enabled'
         ok = run_step(rec, tree, root, history, op, mode, f'rand{h}')
         if not ok:
+          bad.add(op['name'])
           break
         history.append(op_src_lines(op, mode))
     firsts = gen_ops(build(tree), None, 1)
